@@ -138,6 +138,16 @@ def focused(tier):
                    {"A": klass([ARR, [1.0, 2.0]], [SRV2, SRV2], route=matrix([[0.0, 1.0], [0.0, 0.0]]))}, K=2, features=["capacity", "blocking"]))
     out.append(cfg("tandem syscap=2", fam, [node(c=1), node(c=1)],
                    {"A": klass([ARR, [1.0, 2.0]], [SRV2, SRV2], route=matrix([[0.0, 1.0], [0.0, 0.0]]))}, K=2, system_capacity=2, features=["syscap"]))
+    # system capacity together with every way of leaving early
+    out.append(single("syscap=2 renege", fam, c=1, K=K + 1, srv=[4.0, 1.0], system_capacity=2, classkw={"renege": [[1.5, 0.5]]}, features=["syscap", "reneging"]))
+    out.append(single("syscap=2 cap=1 renege", fam, c=1, K=K, srv=[4.0, 1.0], nodekw={"cap": 1}, system_capacity=3, classkw={"renege": [[1.5, 0.5]]}, features=["syscap", "capacity", "reneging"]))
+    out.append(single("syscap=2 baulk", fam, c=1, K=K, srv=SRV2, system_capacity=2, classkw={"baulk": [{"by_n": [0.0, 0.5, 1.0]}]}, features=["syscap", "baulking"]))
+    out.append(cfg("syscap=2 renege jockey", fam, [node(c=1), node(c=1)],
+                   {"A": klass([ARR, None], [[4.0, 1.0], SRV2], renege=[[1.5, 0.5], None], route=network(direct(2, jockey_to=2), leave()))},
+                   K=K, system_capacity=2, features=["syscap", "reneging"]))
+    out.append(two_class_single("syscap=2 preempt resume", fam, c=1, K=2, prios=(1, 0), preempt="resume", system_capacity=2, features=["syscap", "preempt_prio"]))
+    out.append(cfg("syscap=2 tandem block", fam, [node(c=1), node(c=1, cap=0)],
+                   {"A": klass([ARR, None], [[1.0, 0.5], SRV2], route=matrix([[0.0, 1.0], [0.0, 0.0]]))}, K=K, system_capacity=2, features=["syscap", "blocking"]))
     out.append(single("ps cap2 qcap=1", fam, c=2, K=K, srv=SRV2, nodekw={"cap": 1, "ps": True}, features=["ps", "capacity"]))
     return out
 
